@@ -86,7 +86,7 @@ pub fn cases(seed: u64, n_random: usize) -> Vec<Case> {
     .into_iter()
     .enumerate()
     {
-        for delay in [0i64, 900] {
+        for delay in [0i64, 1500] {
             for chunks in [vec![], vec![1i64, 64]] {
                 let mut spec = base(vec!["--no-gitconfig".into(), "--width".into(), "100".into(), "--paging".into(), "never".into()]);
                 spec.stdin = input.clone().into();
